@@ -161,8 +161,16 @@ class Generator:
         elif k in ('struct', 'enum', 'union'):
             self.adt_item(rel, src, it, line_of)
         elif k in ('const', 'static', 'type'):
+            c = self.contract_for('%s::%s' % (rel, it.name))
+            if c and c.status == 'omitted':
+                return
             txt = self.pubify_head(src[it.start:it.end], it, src)
-            self.emit('\n' + txt + '\n', 'src', src_file=rel, src_line=line_of(it.start))
+            pre = ''
+            if c:
+                pre = ''.join(a + '\n' for a in c.attrs if a.startswith('#'))
+                if c.status == 'external':
+                    pre += '#[verifier::external]\n'
+            self.emit('\n' + pre + txt + '\n', 'src', src_file=rel, src_line=line_of(it.start))
         elif k == 'fn':
             self.fn_item(rel, src, it, line_of, None)
         elif k in ('impl', 'trait'):
